@@ -246,6 +246,17 @@ CLAIMED.update({
     ),
 })
 
+CLAIMED.update({
+    "C18": dict(
+        level="other",
+        note="Trusted: CPython ast; the role table ROLE_NEEDED in sa/rules/c18.py (PS3.7: every DIMSE request except N-EVENT-REPORT "
+        "is issued by the SCU). Not decided: pydicom's conversion between transfer syntaxes; what user code passes as SOP class "
+        "or meta SOP class. Two genuine findings pinned by the suite are listed in known_findings.json.",
+        technique="structural decision of one selector function + sibling def-use records over 13 senders + call-site matching in the service classes (ast)",
+        ref="4/C18",
+    ),
+})
+
 PENDING = "designed in DESIGN.md section 4, checker not built yet - not claimed through a stub"
 
 NOT_APPLICABLE = {
